@@ -268,6 +268,8 @@ class FloatMode:
               e <= c / e >= c (monotonicity of rounding).  No-overflow is a side obligation of every operation.
               A `sat` answer in this mode is NOT a counterexample (only `unsat` is meaningful)."""
     mode = "ieee"
+    abstract = False   # with mode 'real': every float operation yields an UNCONSTRAINED real (no rounding facts, no side
+                       # obligations) -- for code whose float values only steer budgets and never enter the property
     cx = None          # current path context (side obligations / assumptions of the real model go there)
     anchors: tuple = ()
 
@@ -293,6 +295,8 @@ def real_round(e, what: str = "op"):
     """result of rounding the exact real `e` in the relaxed model"""
     cx = FloatMode.cx
     r = z3.Real(cx._name("fl"))
+    if FloatMode.abstract:
+        return r
     u = _real(2.0 ** -53)
     eta = z3.RealVal("1/" + str(2 ** 1075))
     ae = z3.If(e >= 0, e, -e)
@@ -337,6 +341,8 @@ def to_term_float(v):
             if v.lo is None or v.hi is None or max(abs(v.lo), abs(v.hi)) >= 2 ** 53:
                 cx = FloatMode.cx
                 t = v.as_int()
+                if FloatMode.abstract:
+                    return z3.Real(cx._name("fl_of_int"))
                 cx.oblige(f"{cx.tag}#fp_side:int_exactly_representable", z3.And(t <= 2 ** 53, t >= -(2 ** 53)), kind="call_pre")
             return z3.ToReal(v.as_int())
         if isinstance(v, SBool):
